@@ -361,6 +361,8 @@ class HeapFn(cxx2gal.LoopFn):
             return self.E(inn[0], k)         # SimpleString x = <text>: the same text
         if kd in CASTS and n.get("castKind") == "ConstructorConversion":
             return self.E(inn[0], k)
+        if kd in CASTS and n.get("castKind") in ("DerivedToBase", "UncheckedDerivedToBase") and self.cfg.get("derived_as_base"):
+            return self.E(inn[0], k)         # a pointer to a derived object used as a pointer to its (modelled) base: the same address
         if kd in ("CXXOperatorCallExpr", "CXXMemberCallExpr", "CallExpr"):
             try:
                 tp = self.calls.get(self.callee_name(inn[0]))
@@ -655,6 +657,14 @@ class HeapFn(cxx2gal.LoopFn):
     def call(self, spec, args, k):
         if isinstance(spec, str):
             return k("(" + spec.format(*args) + ")")
+        if spec.get("virtual_null") and not getattr(self, "_in_vnull", False):
+            # a virtual function with exactly two definitions: the terminator object's empty override, and this one
+            self._in_vnull = True
+            try:
+                body = self.call(spec, args, k)
+            finally:
+                self._in_vnull = False
+            return "(if z2b (hp_eq %s %s) then %s else %s)" % (args[0], spec["virtual_null"], k("tt"), body)
         fn = spec["fn"]
         r = self.tmp("r")
         gs = [g for g, _ in self.cfg.get("ghosts", [])]
@@ -754,6 +764,12 @@ class HeapFn(cxx2gal.LoopFn):
                 spec = self.calls.get(self.callee_name(self.inner(n)[0]))
             except Unsupported:
                 spec = None
+            if isinstance(spec, str):          # a ghost constant named in the replacement text is a variable the enclosing loop reads
+                for g, _ in self.cfg.get("ghosts", []):
+                    if re.search(r"\b%s\b" % re.escape(g), spec):
+                        refs.add(g)
+            if isinstance(spec, dict) and spec.get("virtual_null"):
+                refs.add(spec["virtual_null"])
             if isinstance(spec, dict) and spec.get("recv_field"):
                 flags.add("mem")
             if isinstance(spec, dict) and spec.get("oracle"):
